@@ -623,14 +623,12 @@ ENVLESS = {"matches", "find", "find_all", "match_node", "find_node", "inside", "
 ENVFUL = {"match_node_with_env", "do_match", "match_and_add_label"}
 
 
-_FE = {}
-
-
 def field_evals(prog, adt, _stack=()):
     """field (struct) or variant (enum) of a rule-bearing type -> {'less': [sites], 'ful': [sites]}: where its sub-rule is evaluated
     through the env-less API (Node::find/matches, MatcherExt::match_node…) resp. with an environment; a field handed to a method of
     its own rule-bearing type (self.stop_by.find(..)) inherits that type's evaluations"""
-    key_ = (id(prog), adt)
+    _FE = prog.__dict__.setdefault("_c12_field_evals", {})  # per-program memo
+    key_ = adt
     if key_ in _FE:
         return _FE[key_]
     if adt in _stack:
